@@ -27,6 +27,24 @@ func (r *countingReader) Read(p []byte) (int, error) {
 	r.pos += n
 	return n, nil
 }
+
+// dataErr: hand out the last bytes TOGETHER with io.EOF, as io.Reader permits
+func (r *countingReader) readDataErr(p []byte) (int, error) {
+	if r.pos >= len(r.b) {
+		return 0, io.EOF
+	}
+	n := copy(p, r.b[r.pos:])
+	r.pos += n
+	if r.pos >= len(r.b) {
+		return n, io.EOF
+	}
+	return n, nil
+}
+
+type dataErrReader struct{ *countingReader }
+
+func (r dataErrReader) Read(p []byte) (int, error) { return r.countingReader.readDataErr(p) }
+
 func (r *countingReader) ReadRune() (rune, int, error) {
 	if r.pos >= len(r.b) {
 		return 0, 0, io.EOF
@@ -266,14 +284,27 @@ func c06Sequence(c *ctx, seed uint64, n int, api string) {
 	}
 	rd := &countingReader{b: all}
 	var dec *hessian.Decoder
+	// reading modes of the Decoder API: the plain reader; a reader that returns its last bytes together
+	// with io.EOF; Decode on the whole stream for the first value, ReadObject for the others
+	mode := int(seed % 4)
 	if api == "encoder" {
-		dec = hessian.NewDecoder(rd, tm)
+		switch mode {
+		case 1:
+			dec = hessian.NewDecoder(dataErrReader{rd}, tm)
+		case 2:
+			dec = hessian.NewDecoder(nil, tm)
+		default:
+			dec = hessian.NewDecoder(rd, tm)
+		}
 	}
+	c.dist[fmt.Sprint("read_mode_", api, "_", mode)]++
 	for k := 0; k < n; k++ {
 		var got interface{}
 		o, msg := guard(func() error {
 			var e error
 			switch {
+			case api == "encoder" && mode == 2 && k == 0:
+				got, e = dec.Decode(all)
 			case api == "encoder":
 				got, e = dec.ReadObject()
 			case k == 0:
@@ -287,7 +318,7 @@ func c06Sequence(c *ctx, seed uint64, n int, api string) {
 			c.fail("read k of a stream fails", in, fmt.Sprintf("k=%d %v %s", k, o, msg), "")
 			return
 		}
-		if rd.pos != ends[k] {
+		if !(api == "encoder" && mode == 2) && rd.pos != ends[k] {
 			c.fail("read k consumed the wrong number of bytes", in, fmt.Sprintf("k=%d offset %d, value k ends at %d", k, rd.pos, ends[k]), "")
 			return
 		}
